@@ -7,6 +7,7 @@
 #include "libvpsc/rectangle.h"
 #include "libcola/cola.h"
 #include "libtopology/topology_graph.h"
+#include "libtopology/topology_constraints.h"
 #include "libtopology/cola_topology_addon.h"
 #include "libavoid/libavoid.h"
 
@@ -21,7 +22,7 @@ static bool segHitsRect(double x1, double y1, double x2, double y2, const vpsc::
 
 struct Mon : public cola::TestConvergence {
     topology::Nodes *nodes; topology::Edges *routes; CaseResult *res; std::string *desc;
-    long iters = 0; bool bendCountChanged = false; bool stop = false;
+    long iters = 0; bool bendCountChanged = false; bool stop = false; std::string keySuffix;
     std::vector<size_t> initialPoints; std::vector<std::pair<unsigned, unsigned>> endNodes;
     std::vector<std::vector<int>> parityPrev; std::vector<std::vector<int>> relPrev;   // [edge][node]
     std::string prevState;   // geometry at the previous monitored iteration (for witnesses)
@@ -50,24 +51,27 @@ struct Mon : public cola::TestConvergence {
             res->count("edge_states_checked");
             if (pts.size() != initialPoints[ei]) bendCountChanged = true;
             // (3) ends still on the original nodes
-            if (pts.front()->node->id != endNodes[ei].first || pts.back()->node->id != endNodes[ei].second) { res->violate("edge-end-moved-to-another-node", JObj().i("edge", (long)ei).raw("state", stateJson()).raw("case", *desc).done()); stop = true; return; }
+            if (pts.front()->node->id != endNodes[ei].first || pts.back()->node->id != endNodes[ei].second) { res->violate("edge-end-moved-to-another-node" + keySuffix, JObj().i("edge", (long)ei).raw("state", stateJson()).raw("case", *desc).done()); stop = true; return; }
             // (1) no segment through the interior of a node other than the end nodes and the nodes its own end points sit on
             for (size_t i = 1; i < P.size(); i++) for (auto n : *nodes) {
                 if (n->id == endNodes[ei].first || n->id == endNodes[ei].second) continue;
                 if (n == pts[i - 1]->node || n == pts[i]->node) continue;
-                if (segHitsRect(P[i - 1].first, P[i - 1].second, P[i].first, P[i].second, n->rect, 1e-6)) { res->violate("edge-segment-through-node-interior", JObj().i("edge", (long)ei).i("segment", (long)i).i("node", n->id).raw("state", stateJson()).raw("case", *desc).done()); stop = true; return; }
+                if (segHitsRect(P[i - 1].first, P[i - 1].second, P[i].first, P[i].second, n->rect, 1e-6)) { res->violate("edge-segment-through-node-interior" + keySuffix, JObj().i("edge", (long)ei).i("segment", (long)i).i("node", n->id).raw("state", stateJson()).raw("case", *desc).done()); stop = true; return; }
             }
             // (4) interior points sit on corners of their node and the path turns around that node (node centre on the inner side of the turn)
             for (size_t i = 1; i + 1 < pts.size(); i++) {
                 const vpsc::Rectangle *r = pts[i]->node->rect; double x = P[i].first, y = P[i].second;
                 bool corner = (std::fabs(x - r->getMinX()) < 1e-6 || std::fabs(x - r->getMaxX()) < 1e-6) && (std::fabs(y - r->getMinY()) < 1e-6 || std::fabs(y - r->getMaxY()) < 1e-6);
-                if (!corner) { res->violate("bend-point-not-on-a-corner-of-its-node", JObj().i("edge", (long)ei).i("point", (long)i).raw("state", stateJson()).raw("case", *desc).done()); stop = true; return; }
+                if (!corner) { res->violate("bend-point-not-on-a-corner-of-its-node" + keySuffix, JObj().i("edge", (long)ei).i("point", (long)i).raw("state", stateJson()).raw("case", *desc).done()); stop = true; return; }
                 double ax = P[i - 1].first, ay = P[i - 1].second, bx = P[i + 1].first, by = P[i + 1].second;
                 double turn = (x - ax) * (by - y) - (y - ay) * (bx - x);                       // >0 left turn
                 double side = (x - ax) * (r->getCentreY() - ay) - (y - ay) * (r->getCentreX() - ax);   // node centre relative to the incoming segment
                 double side2 = (bx - x) * (r->getCentreY() - y) - (by - y) * (r->getCentreX() - x);   // ... and to the outgoing one
                 res->count("bends_checked");
-                if (std::fabs(turn) > 1e-6 && (turn * side < -1e-6 || turn * side2 < -1e-6)) { res->violate("bend-does-not-turn-around-its-node", JObj().i("edge", (long)ei).i("point", (long)i).num("turn", turn).num("side_in", side).num("side_out", side2).raw("state", stateJson()).raw("case", *desc).done()); stop = true; return; }
+                double lin = std::hypot(x - ax, y - ay), lout = std::hypot(bx - x, by - y);
+                double sT = (lin > 0 && lout > 0) ? turn / (lin * lout) : 0, dIn = lin > 0 ? side / lin : 0, dOut = lout > 0 ? side2 / lout : 0, sg = sT > 0 ? 1 : -1;
+                // a turn of less than 1e-6 rad is straight; the centre must not lie more than 1e-6 on the outer side of either segment
+                if (std::fabs(sT) > 1e-6 && (sg * dIn < -1e-6 || sg * dOut < -1e-6)) { res->violate("bend-does-not-turn-around-its-node" + keySuffix, JObj().i("edge", (long)ei).i("point", (long)i).num("turn", turn).num("side_in", side).num("side_out", side2).raw("state", stateJson()).raw("case", *desc).done()); stop = true; return; }
             }
             // (5) side signature per step: parity of crossings of the rightward ray from each foreign node centre with the closed curve
             //     path + upward vertical rays at both path ends; it may change only when an end passes the node's x
@@ -76,9 +80,9 @@ struct Mon : public cola::TestConvergence {
                 bool onPath = false; for (auto p : pts) if (p->node == n) onPath = true; if (onPath) { parityPrev[ei][ni] = -1; continue; }
                 double cx = n->rect->getCentreX(), cy = n->rect->getCentreY(); int par = 0;
                 for (size_t i = 1; i < P.size(); i++) { double y1 = P[i - 1].second, y2 = P[i].second, x1 = P[i - 1].first, x2 = P[i].first; if ((y1 > cy) != (y2 > cy)) { double xx = x1 + (cy - y1) * (x2 - x1) / (y2 - y1); if (xx > cx) par ^= 1; } }
-                for (int q = 0; q < 2; q++) { double ex = q ? P.back().first : P.front().first, ey = q ? P.back().second : P.front().second; if (ex > cx && ey < cy) par ^= 1; }
+                for (int q = 0; q < 2; q++) { double ex = q ? P.back().first : P.front().first, ey = q ? P.back().second : P.front().second; if (ex > cx && ey <= cy) par ^= 1; }   // same half-open rule as for the segments (the ray is the segment (ex,ey)-(ex,+inf))
                 int rel = (P.front().first > cx ? 1 : 0) | (P.back().first > cx ? 2 : 0);
-                if (!first && parityPrev[ei][ni] >= 0 && rel == relPrev[ei][ni] && par != parityPrev[ei][ni]) { res->violate("node-changed-side-of-an-edge-in-one-step", JObj().i("edge", (long)ei).i("node", n->id).raw("previous_state", prevState.empty() ? "null" : prevState).raw("state", stateJson()).raw("case", *desc).done()); stop = true; return; }
+                if (!first && parityPrev[ei][ni] >= 0 && rel == relPrev[ei][ni] && par != parityPrev[ei][ni]) { res->violate("node-changed-side-of-an-edge-in-one-step" + keySuffix, JObj().i("edge", (long)ei).i("node", n->id).raw("previous_state", prevState.empty() ? "null" : prevState).raw("state", stateJson()).raw("case", *desc).done()); stop = true; return; }
                 parityPrev[ei][ni] = par; relPrev[ei][ni] = rel; res->count("side_signatures_checked");
             }
             ei++;
@@ -87,11 +91,27 @@ struct Mon : public cola::TestConvergence {
         // (2) node rectangles do not overlap
         for (size_t i = 0; i < nodes->size(); i++) for (size_t j = i + 1; j < nodes->size(); j++) {
             vpsc::Rectangle *a = (*nodes)[i]->rect, *b = (*nodes)[j]->rect; double ox = std::min(a->getMaxX(), b->getMaxX()) - std::max(a->getMinX(), b->getMinX()), oy = std::min(a->getMaxY(), b->getMaxY()) - std::max(a->getMinY(), b->getMinY());
-            if (ox > 1e-6 && oy > 1e-6) { res->violate("node-rectangles-overlap", JObj().i("i", (long)i).i("j", (long)j).num("overlap_x", ox).num("overlap_y", oy).raw("state", stateJson()).raw("case", *desc).done()); stop = true; return; }
+            if (ox > 1e-6 && oy > 1e-6) { res->violate("node-rectangles-overlap" + keySuffix, JObj().i("i", (long)i).i("j", (long)j).num("overlap_x", ox).num("overlap_y", oy).raw("state", stateJson()).raw("case", *desc).done()); stop = true; return; }
         }
     }
     bool operator()(const double new_stress, std::valarray<double> &X, std::valarray<double> &Y) { iters++; check(); return TestConvergence::operator()(new_stress, X, Y); }
 };
+
+// libavoid polyline routes (tight around shape corners) -> topology::Edges whose interior EdgePoints carry the (shape, corner) of each bend
+static bool buildRoutes(vpsc::Rectangles &rs, std::vector<cola::Edge> &es, topology::Nodes &tn, topology::Edges &routes, double ideal) {
+    int n = (int)rs.size(); bool anyBend = false;
+    Avoid::Router *router = new Avoid::Router(Avoid::PolyLineRouting); router->setRoutingParameter(Avoid::segmentPenalty, 0);
+    for (int i = 0; i < n; i++) { Avoid::Rectangle sr(Avoid::Point(rs[i]->getMinX(), rs[i]->getMinY()), Avoid::Point(rs[i]->getMaxX(), rs[i]->getMaxY())); new Avoid::ShapeRef(router, sr, (unsigned)i + 1); }
+    std::vector<Avoid::ConnRef *> crs; for (size_t i = 0; i < es.size(); i++) { Avoid::Point s(rs[es[i].first]->getCentreX(), rs[es[i].first]->getCentreY()), d(rs[es[i].second]->getCentreX(), rs[es[i].second]->getCentreY()); crs.push_back(new Avoid::ConnRef(router, s, d, (unsigned)(i + n + 1))); }
+    set_stage("libavoid.processTransaction"); router->processTransaction();
+    for (size_t i = 0; i < es.size(); i++) {
+        const Avoid::Polygon &route = crs[i]->route(); topology::EdgePoints eps; eps.push_back(new topology::EdgePoint(tn[es[i].first], topology::EdgePoint::CENTRE));
+        for (size_t j = 1; j + 1 < route.size(); j++) { const Avoid::Point &p = route.ps[j]; topology::EdgePoint::RectIntersect ri; switch (p.vn) { case 0: ri = topology::EdgePoint::BR; break; case 1: ri = topology::EdgePoint::TR; break; case 2: ri = topology::EdgePoint::TL; break; case 3: ri = topology::EdgePoint::BL; break; default: ri = topology::EdgePoint::CENTRE; } if (p.id >= 1 && p.id <= (unsigned)n) { eps.push_back(new topology::EdgePoint(tn[p.id - 1], ri)); anyBend = true; } }
+        eps.push_back(new topology::EdgePoint(tn[es[i].second], topology::EdgePoint::CENTRE)); routes.push_back(new topology::Edge((unsigned)i, ideal, eps));
+    }
+    delete router;
+    return anyBend;
+}
 
 static void case_pipeline(const Args &a, long idx, bool wantDesc, CaseResult &res) {
     Rng R(mix(mix(a.seed, 0xC13), (uint64_t)idx));
@@ -116,19 +136,7 @@ static void case_pipeline(const Args &a, long idx, bool wantDesc, CaseResult &re
     if (wantDesc) res.desc = desc;
 
     topology::Nodes tn; for (int i = 0; i < n; i++) tn.push_back(new topology::Node((unsigned)i, rs[i]));
-    topology::Edges routes; bool anyBend = false;
-    {
-        Avoid::Router *router = new Avoid::Router(Avoid::PolyLineRouting); router->setRoutingParameter(Avoid::segmentPenalty, 0);
-        for (int i = 0; i < n; i++) { Avoid::Rectangle sr(Avoid::Point(rs[i]->getMinX(), rs[i]->getMinY()), Avoid::Point(rs[i]->getMaxX(), rs[i]->getMaxY())); new Avoid::ShapeRef(router, sr, (unsigned)i + 1); }
-        std::vector<Avoid::ConnRef *> crs; for (size_t i = 0; i < es.size(); i++) { Avoid::Point s(rs[es[i].first]->getCentreX(), rs[es[i].first]->getCentreY()), d(rs[es[i].second]->getCentreX(), rs[es[i].second]->getCentreY()); crs.push_back(new Avoid::ConnRef(router, s, d, (unsigned)(i + n + 1))); }
-        set_stage("libavoid.processTransaction"); router->processTransaction();
-        for (size_t i = 0; i < es.size(); i++) {
-            const Avoid::Polygon &route = crs[i]->route(); topology::EdgePoints eps; eps.push_back(new topology::EdgePoint(tn[es[i].first], topology::EdgePoint::CENTRE));
-            for (size_t j = 1; j + 1 < route.size(); j++) { const Avoid::Point &p = route.ps[j]; topology::EdgePoint::RectIntersect ri; switch (p.vn) { case 0: ri = topology::EdgePoint::BR; break; case 1: ri = topology::EdgePoint::TR; break; case 2: ri = topology::EdgePoint::TL; break; case 3: ri = topology::EdgePoint::BL; break; default: ri = topology::EdgePoint::CENTRE; } if (p.id >= 1 && p.id <= (unsigned)n) { eps.push_back(new topology::EdgePoint(tn[p.id - 1], ri)); anyBend = true; } }
-            eps.push_back(new topology::EdgePoint(tn[es[i].second], topology::EdgePoint::CENTRE)); routes.push_back(new topology::Edge((unsigned)i, ideal, eps));
-        }
-        delete router;
-    }
+    topology::Edges routes; bool anyBend = buildRoutes(rs, es, tn, routes, ideal);
     if (anyBend) res.count("cases_with_initial_bends");
     Mon mon(0.0001, maxit); mon.nodes = &tn; mon.routes = &routes; mon.res = &res; mon.desc = &desc; mon.snapshotInitial();
     mon.check();   // iteration 0
@@ -148,9 +156,75 @@ static void case_pipeline(const Args &a, long idx, bool wantDesc, CaseResult &re
     for (auto r : rs) delete r;
 }
 
+// Direct use of topology::TopologyConstraints as in the library's simple_bend/nodedragging tests: per pass one instance in one axis,
+// desired positions set on the node variables, solve() repeated until it reports no further topology event; an instance may be reused
+// for further goals (simple_bend does that).  The state is judged after every solve() return.
+static void case_direct(const Args &a, long idx, bool wantDesc, CaseResult &res) {
+    Rng R(mix(mix(a.seed, 0xD13), (uint64_t)idx));
+    bool grid = R.coin(0.5); int want = (int)R.ri(3, 10); vpsc::Rectangles rs; int tries = 0; JArr rj;
+    double gap = grid ? (R.coin(0.5) ? 0 : 5) : (R.coin(0.3) ? 1 : 4); double span = grid ? 160 : 300;
+    while ((int)rs.size() < want && tries++ < 500) {
+        double w, h, x, y;
+        if (grid) { w = 5 * R.ri(2, 8); h = 5 * R.ri(2, 8); x = 5 * R.ri(0, (long)span / 5); y = 5 * R.ri(0, (long)span / 5); }
+        else { w = R.rd(10, 40); h = R.rd(10, 40); x = R.rd(0, span); y = R.rd(0, span); }
+        bool ok = true;
+        for (auto r : rs) if (!(x >= r->getMaxX() + gap || x + w <= r->getMinX() - gap || y >= r->getMaxY() + gap || y + h <= r->getMinY() - gap)) { ok = false; break; }
+        if (ok) { rs.push_back(new vpsc::Rectangle(x, x + w, y, y + h)); rj.raw(JArr().num(x).num(y).num(w).num(h).done()); }
+    }
+    int n = (int)rs.size(); if (n < 3) { for (auto r : rs) delete r; res.inconclusive = "too-few-nodes"; return; }
+    std::vector<cola::Edge> es; int ne = (int)R.ri(1, std::max(1, n / 2 + 1));
+    for (int e = 0; e < ne; e++) { unsigned u = (unsigned)R.ri(0, n - 1), v = (unsigned)R.ri(0, n - 1); if (u != v) es.push_back(cola::Edge(u, v)); }
+    if (es.empty()) es.push_back(cola::Edge(0, 1));
+    JArr ej; for (auto &e : es) ej.raw(JArr().i(e.first).i(e.second).done());
+    int passes = (int)R.ri(1, 6); bool reuse = R.coin(0.5); int firstDim = (int)R.ri(0, 1);
+    // goals: per (pass, goal) a list of (node, displacement, weight)
+    struct Goal { std::vector<unsigned> id; std::vector<double> d; std::vector<double> w; };
+    std::vector<std::vector<Goal>> plan; JArr pj;
+    for (int p = 0; p < passes; p++) { int goals = reuse ? (int)R.ri(1, 3) : 1; std::vector<Goal> gs; JArr gj;
+        for (int g = 0; g < goals; g++) { Goal G; JArr one; int k = (int)R.ri(1, std::max(1, n / 2)); for (int q = 0; q < k; q++) { unsigned id = (unsigned)R.ri(0, n - 1); double d = grid ? 5.0 * R.ri(-20, 20) : R.rd(-100, 100); double w = R.coin(0.5) ? 10000 : 1; G.id.push_back(id); G.d.push_back(d); G.w.push_back(w); one.raw(JArr().i(id).num(d).num(w).done()); } gs.push_back(G); gj.raw(one.done()); }
+        plan.push_back(gs); pj.raw(gj.done()); }
+    std::string desc = JObj().b("grid", grid).raw("rects_x_y_w_h", rj.done()).raw("edges", ej.done()).i("first_dim", firstDim).b("instance_reused_for_several_goals", reuse).raw("passes_goals_node_move_weight", pj.done()).done();
+    Digest D; D.s(desc); res.digest = D.h; res.gen = std::string(grid ? (gap == 0 ? "grid-touching" : "grid-gap5") : "real") + (reuse ? "/reused-instance" : "/one-goal-per-instance");
+    if (wantDesc) res.desc = desc;
+    topology::Nodes tn; for (int i = 0; i < n; i++) tn.push_back(new topology::Node((unsigned)i, rs[i]));
+    topology::Edges routes; bool anyBend = buildRoutes(rs, es, tn, routes, 100);
+    if (anyBend) res.count("cases_with_initial_bends");
+    Mon mon(0.0001, 100); mon.nodes = &tn; mon.routes = &routes; mon.res = &res; mon.desc = &desc; mon.keySuffix = std::string("[direct:") + (grid ? "grid" : "real") + (reuse ? ":reused-instance]" : ":one-goal]"); mon.snapshotInitial();
+    mon.check();
+    if (!res.findings.empty()) { res.findings.clear(); res.inconclusive = "initial-state-already-violates (generator)"; for (auto r : rs) delete r; return; }
+    int efd = dup(2); int nul = open("/dev/null", O_WRONLY); dup2(nul, 2); close(nul);
+    struct EG { int fd; ~EG() { dup2(fd, 2); close(fd); } } eg{efd};
+    vpsc::Rectangle::setXBorder(0); vpsc::Rectangle::setYBorder(0);
+    long solves = 0; bool capped = false;
+    for (int p = 0; p < passes && !mon.stop; p++) {
+        vpsc::Dim dim = (vpsc::Dim)((firstDim + p) & 1);
+        vpsc::Variables vs; vpsc::Constraints cs;
+        for (int i = 0; i < n; i++) vs.push_back(new vpsc::Variable(i, rs[i]->getCentreD(dim), 1));
+        topology::setNodeVariables(tn, vs);
+        {
+            set_stage("TopologyConstraints()");
+            topology::TopologyConstraints t(dim, tn, routes, nullptr, vs, cs);
+            for (auto &G : plan[p]) {
+                for (int i = 0; i < n; i++) { vs[i]->desiredPosition = rs[i]->getCentreD(dim); vs[i]->weight = 1; }
+                for (size_t q = 0; q < G.id.size(); q++) { vs[G.id[q]]->desiredPosition = rs[G.id[q]]->getCentreD(dim) + G.d[q]; vs[G.id[q]]->weight = G.w[q]; }
+                int breaker = 100; bool interrupted;
+                do { set_stage("TopologyConstraints.solve"); interrupted = t.solve(); solves++; mon.iters++; set_stage("check-after-solve"); mon.check(); } while (interrupted && --breaker > 0 && !mon.stop);
+                if (interrupted && breaker == 0) capped = true;
+                if (mon.stop) break;
+            }
+        }
+        for (auto c : cs) delete c; for (auto v : vs) delete v;
+    }
+    res.count("direct_cases_judged"); res.count(std::string("direct_cases_") + (grid ? "grid" : "real") + (reuse ? "_reused_instance" : "_one_goal")); res.count("solve_calls_monitored", solves); if (capped) res.count("goals_cut_off_after_100_solves");
+    res.nontrivial = mon.bendCountChanged;
+    if (mon.bendCountChanged) res.count("cases_where_bends_were_created_or_removed");
+    for (auto r : rs) delete r;
+}
+
 int main(int argc, char **argv) {
     return harness_main(argc, argv, "c13_topology", [](const Args &a, long idx, bool wantDesc, CaseResult &res) {
         if (a.mode == "pipeline") case_pipeline(a, idx, wantDesc, res);
+        else if (a.mode == "direct") case_direct(a, idx, wantDesc, res);
         else res.inconclusive = "unknown-mode";
     });
 }
